@@ -613,6 +613,18 @@ def d_borrow(P, f, s):
     return "D-BORROW: no conflicting guard of RefCell<%s> is alive in this function here (callers are covered by BORROW-OVERLAP)" % D.short_ty(ct)
 
 
+# ------------------------------------------------------------------ D-PROGRESS
+def d_progress(P, f, s):
+    """`assert!(tokens.idx > start_idx)` directly behind `if tokens.idx <= start_idx { break }` cannot fire."""
+    if not s.kind.startswith("call:panic") or "The parser should always make forward progress" not in s.detail:
+        return None
+    from . import parseprog as PP
+    idiom, why = PP.classify(P, f, s)
+    if idiom == "G1":
+        return "D-PROGRESS: " + why
+    return None
+
+
 # ------------------------------------------------------------------ D-ZERODIV
 def d_zerodiv(P, f, s):
     """wrapping_rem_euclid / wrapping_div & co panic only on a zero divisor: discharged under the false edge of `rhs == 0`."""
@@ -684,7 +696,7 @@ def d_slice_order(P, f, s):
     return None
 
 
-RULES = [d_usize, d_arity, d_len, d_constre, d_lock, d_sub_guard, d_frame, d_valstack, d_peek, d_dispatch, d_borrow, d_slice_order, d_zerodiv]
+RULES = [d_usize, d_arity, d_len, d_constre, d_lock, d_sub_guard, d_frame, d_valstack, d_peek, d_dispatch, d_borrow, d_slice_order, d_zerodiv, d_progress]
 
 
 # ------------------------------------------------------------------ the PANIC-INV rule
